@@ -44,7 +44,6 @@ def _skip_ws_back(text, k):
 
 def _match_open(text, k, mask):
     """text[k] is a closing bracket; index of its opening partner (scanning backwards)."""
-    pairs = {')': '(', ']': '['}
     depth = 0
     for j in range(k, -1, -1):
         if not mask[j]:
